@@ -188,7 +188,9 @@ package keeper
 //@   ensures [closed] deployment.State != types.DeploymentClosed && old(KVhas)[k.skey][deploymentKeyOf(deployment.DeploymentID)] ==> KVhas == old(KVhas)
 //@                && KVval == old(KVval)[k.skey := old(KVval)[k.skey][deploymentKeyOf(deployment.DeploymentID) := encode(upd(deployment, State, types.DeploymentClosed))]]
 //@                && EvN == old(EvN) + 1 && EvLog == old(EvLog)[old(EvN) := sigDeployment(3, deployment.DeploymentID)]
+// (C16: a group-closed event only for a group that was not closed)
 //@ func (Keeper).OnCloseGroup
+//@   requires [notclosed] group.State != types.GroupClosed
 //@   modifies ghost KVhas, ghost KVval, ghost G, ghost EvN, ghost EvLog
 //@   uses depWFSetDeployment, depWFSetGroup
 //@   ensures [wf] depWF(old(KVhas)[k.skey], old(KVval)[k.skey]) ==> depWF(KVhas[k.skey], KVval[k.skey])
